@@ -279,6 +279,21 @@ func (nr *NativeRunner) confirmRace(v *Violation) {
 
 // confirm replays a violation natively.
 func (nr *NativeRunner) confirm(v *Violation) {
+	nr.confirm1(v)
+	if v.Confirmed == "not-reproduced" && v.Over {
+		first, firstOut := v.Case, v.NativeOut
+		for _, alt := range v.Alts {
+			v.Case = alt
+			nr.confirm1(v)
+			if v.Confirmed == "reproduced" {
+				return
+			}
+		}
+		v.Case, v.Confirmed, v.NativeOut = first, "not-reproduced", fmt.Sprintf("%s (%d further candidate inputs tried)", firstOut, len(v.Alts))
+	}
+}
+
+func (nr *NativeRunner) confirm1(v *Violation) {
 	if strings.HasPrefix(v.Label, "race: RACE") {
 		nr.confirmRace(v)
 		return
@@ -313,6 +328,10 @@ func (nr *NativeRunner) confirm(v *Violation) {
 		v.Confirmed, v.NativeOut = "not-reproduced", "native run diverged: "+res.Diverged
 	case isPanic && (res.Panic != "" || res.crash != ""):
 		v.Confirmed, v.NativeOut = "reproduced", res.Panic+res.crash
+	case strings.HasPrefix(v.Label, "deadlock:") && fail != "":
+		// a goroutine of the proxy blocked for good does not crash a Go process as long as the
+		// harness goroutine runs; natively it shows as the work that goroutine no longer does
+		v.Confirmed, v.NativeOut = "reproduced", "the goroutine blocks natively as well; the harness observes: "+fail
 	case isPanic:
 		v.Confirmed, v.NativeOut = "not-reproduced", "no panic natively"
 	case strings.HasPrefix(v.Label, "race:"):
